@@ -1153,3 +1153,111 @@ PROPS["C10"] = Prop(
     trusted=["the io wrappers of harness/src/fault.rs define what a 'call' is (one log entry per trait method call)",
              "what the OS / runtime does around a failing call (partial writes inside write_all, cancellation of a pending future) is outside the model: C10 is partial there"],
     assumptions=DEC_ASSUME)
+
+
+# ------------------------------------------------------------------ bao / copy / grow families
+F_BAO = Family("bao", "Run.RunProto", "run_bao", "holds_bao", lambda a, o: a[2] > 1024)
+F_COPY = Family("copy", "Run.RunProto", "run_copy", "holds_copy", lambda a, o: a[2] > 2048)
+F_GROW = Family("grow", "Run.RunProto", "run_grow", "holds_grow", lambda a, o: a[3] > a[2])
+for f in (F_BAO, F_COPY, F_GROW):
+    f.shard_cases = 40
+
+
+def gen_bao(tier, rng):
+    cases = []
+    for size in (ENC_SIZES if tier == "quick" else ENC_SIZES + [k * 512 for k in range(1, 33)]):
+        n = nchunks(size)
+        rs = [(a, b) for a in range(0, n + 2) for b in range(a + 1, n + 3)]
+        if tier == "quick":
+            rs = rng.sample(rs, min(len(rs), 8))
+        for (a, b) in rs:
+            cases.append(("bao", [rng.randrange(0, 3), seed(rng), size, a, b]))
+    return cases
+
+
+def gen_copy(tier, rng):
+    cases = []
+    for size in (BLOB_SIZES[::2] if tier == "quick" else BLOB_SIZES):
+        for bs in range(0, 3):
+            for fk in range(0, 4):
+                for tk in range(0, 5) if tier == "thorough" else (rng.randrange(0, 5),):
+                    cases.append(("copy", [0, seed(rng), size, bs, fk, tk, rng.randrange(0, 2)]))
+    return cases
+
+
+def gen_grow(tier, rng):
+    cases = []
+    maxg = 12 if tier == "quick" else 24
+    for bs in range(0, 3):
+        g = 1024 << bs
+        sizes = sorted({k * g + d for k in range(0, maxg + 1) for d in (0, 1, g // 2, g - 1)} - {0})
+        sizes = [s for s in sizes if s <= 32 * 1024]
+        pairs = [(s1, s2) for s1 in sizes for s2 in sizes if s1 <= s2]
+        if tier == "quick":
+            pairs = rng.sample(pairs, min(len(pairs), 120))
+        elif len(pairs) > 1500:
+            pairs = rng.sample(pairs, 1500)
+        for (s1, s2) in pairs:
+            cases.append(("grow", [0, seed(rng), s1, s2, bs]))
+    return cases
+
+
+_old_c04 = PROPS["C04"]
+PROPS["C04"] = Prop(
+    [F_ENCODE, F_BAO], lambda tier, rng: gen_c04(tier, rng) + gen_bao(tier, rng),
+    _old_c04.rule + " bao: every single chunk range [a,b) with b <= nchunks+2 (sampled in quick) on the same size classes: bao::encode::SliceExtractor output = "
+    "little-endian size ++ block-size-0 encoding (crate and spec), and bao::decode::SliceDecoder accepts it and returns the selected bytes.",
+    trusted=_old_c04.trusted)
+_old_c12 = PROPS["C12"]
+PROPS["C12"] = Prop(
+    [F_TREE, F_OFFSETS, F_COPY], lambda tier, rng: gen_c12(tier, rng) + gen_copy(tier, rng),
+    _old_c12.rule + "; copy: sync / fsm copy between every pair of outboard kinds and flip().flip() of the memory outboards on real outboards up to 32 KiB",
+    assumptions=_old_c12.assumptions)
+_old_c13 = PROPS["C13"]
+PROPS["C13"] = Prop(
+    [F_TREE, F_OFFSETS, F_GROW], lambda tier, rng: gen_c12(tier, rng) + gen_grow(tier, rng),
+    "geometry families of C12 (Stable / Unstable tag and slot of every node); grow: pairs (prefix length, extended length) over byte-size classes "
+    "{k groups, +1 byte, half group, group-1} up to 12 (quick, 120 sampled pairs per block size) / 24 groups (thorough), bs 0..2, real hashing: the "
+    "common byte prefix of the two post-order outboards covers at least the stable pairs. non-trivial = more than one block / proper extension",
+    assumptions=_old_c13.assumptions)
+
+
+def gen_c14_cross(tier, rng):
+    """sel-equal query pairs: identical encodings, and each decodes the other's encoding"""
+    cases = []
+    sizes = [1, 1025, 2049, 3 * 1024] if tier == "quick" else [0, 1, 1024, 1025, 2048, 2049, 3 * 1024, 4 * 1024 + 1, 5 * 1024]
+    for size in sizes:
+        n = nchunks(size)
+        classes = {}
+        extra = [[M64], [n - 1, M64], [0, M64], [n + 7], [n, n + 100]]
+        for q in list(all_subsets(range(0, n + 3))) + extra:
+            q = sorted(set(q))
+            if not q:
+                continue
+            sig = tuple(py_sel(q, size)(c) for c in range(n))
+            classes.setdefault(sig, []).append(q)
+        for sig, qs in classes.items():
+            if len(qs) < 2:
+                continue
+            pairs = [(rng.choice(qs), rng.choice(qs)) for _ in range(3 if tier == "quick" else 10)]
+            for (q1, q2) in pairs:
+                if q1 == q2:
+                    continue
+                for bs in (0, 1, 2):
+                    sd = seed(rng)
+                    e = rng.choice([0, 1, 4])
+                    cases.append(("encode", [0, sd, size, bs, e, rng.randrange(0, 4), 0] + q1))
+                    cases.append(("encode", [0, sd, size, bs, e, rng.randrange(0, 4), 0] + q2))
+                    d, sk = rng.choice(drivers_and_sinks(rng, False))
+                    cases.append(dec_case(0, sd, size, bs, size, d, sk, q1, qs=q2))
+    return cases
+
+
+PROPS["C14"] = Prop(
+    [F_RANGES, F_ENCODE, F_DECODE], lambda tier, rng: gen_c14_ranges(tier, rng) + gen_c14_cross(tier, rng),
+    "ranges(truncate): every boundary subset in 0..nchunks+2 for every byte-size class up to 6 (quick) / 8 (thorough) chunks, plus random sizes up to "
+    "2^63 with boundaries around the end and at u64::MAX; cross: for blobs of 1..3 (quick) / 0..5 chunks every class of queries selecting the same chunks "
+    "(subsets of 0..nchunks+2 plus u64::MAX-ended ones): sampled pairs are encoded (identical bytes expected, compared with the spec) and the encoding "
+    "of one is decoded with the other (sync and fsm, all sinks). non-trivial = non-empty query",
+    assumptions=["boundaries strictly sorted < 2^64, size <= 2^63"] + DEC_ASSUME,
+)
